@@ -32,6 +32,32 @@ def _norm(s):
     return re.sub(r'\s+', ' ', s.strip())
 
 
+def _inside_proof_block(lines, line_no):
+    """is 1-based line `line_no` of the generated file inside a `proof { .. }` block?  (backward scan with brace counting)"""
+    depth = 0
+    i = line_no - 1
+    first = True
+    while i >= 0 and line_no - i < 400:
+        t = re.sub(r'//.*$', '', lines[i])
+        if first:
+            first = False   # ignore the braces of the failing line itself
+        else:
+            for ch in reversed(t):
+                if ch == '}':
+                    depth += 1
+                elif ch == '{':
+                    if depth == 0:
+                        if re.search(r'\bproof\s*\{', t):
+                            return True
+                        if re.search(r'\bfn\s+\w+', t) or re.search(r'^\s*(while|for|loop)\b', t):
+                            return False
+                        # an `if` / `by` / `assert forall` block: keep looking outward
+                    else:
+                        depth -= 1
+        i -= 1
+    return False
+
+
 def region_for(meta, line):
     for r in meta['regions']:
         if r['start'] <= line <= r['end']:
@@ -40,6 +66,7 @@ def region_for(meta, line):
 
 
 def run(gen_path, meta, rlimit=20, multiple_errors=5, seed=None, threads=4, timeout=900, keep_log=False):
+    gen_lines = open(gen_path).read().split('\n')
     """returns dict(status, functions_verified, functions_failed, obligations_fine, failures[], unsupported[], wall_s, cmd, raw)"""
     logdir = tempfile.mkdtemp(prefix='verus-log-')
     cmd = ['verus', gen_path, '--triggers-mode', 'silent', '--output-json', '--time', '--error-format=json',
@@ -150,12 +177,25 @@ def run(gen_path, meta, rlimit=20, multiple_errors=5, seed=None, threads=4, time
             # allocation-allowance preconditions decide the memory properties only
             ob['props'] = [p for p in ob['props'] if p in ('C13', 'C01')]
         ob['id'] = obligation_id(meta['unit'], ob)
+        if kind == 'refuted' and 'assertion failed' in msg and where_line and _inside_proof_block(gen_lines, where_line):
+            # an assertion inside an injected `proof { .. }` block is a step of the proof script, not a statement of the
+            # property (those are written as plain `assert(..)` statements): see the demotion rule after the loop
+            ob['hint'] = True
         if kind == 'refuted':
             res['failures'].append(ob)
         elif kind == 'unknown':
             res['unknown'].append(ob)
         else:
             res['unsupported'].append(ob)
+    # demotion rule: a failed proof-script step in a function in which NO contract clause, invariant, precondition or property
+    # assertion is refuted says that the proof script needs maintenance (e.g. statements were reordered), not that the
+    # property is violated: undecided, never an alarm.  (A failed step that comes with a refuted clause stays a failure.)
+    hard = set(ob['fn'] for ob in res['failures'] if not ob.get('hint'))
+    for ob in [o for o in res['failures'] if o.get('hint') and o['fn'] not in hard]:
+        res['failures'].remove(ob)
+        ob['kind'] = 'unknown'
+        ob['message'] = 'proof-script step no longer holds (no contract clause refuted in this function): ' + ob['message']
+        res['unknown'].append(ob)
     if res['unsupported'] or vr.get('encountered-vir-error') or (not vr and rc != 0):
         res['status'] = 'unsupported'
         if not res['unsupported']:
